@@ -44,7 +44,9 @@ FIXED_DS = [
             "M5,5 h10 v10 h-10 z M25,5 v10 h10 v-10 z M45,5 h10 v10 h-10 z", "M10,10 L20,10 L20,20 L10,20 Z M12,30 L12,40 L22,40 L22,30 Z", "M10,10 C10,10 10,10 10,10 Z", "M3,3 L3,3 Z L5,5 L5,0 Z"]
 CANON_PAINTS = [{}, {"fill": "red"}, {"fill": "red", "fill-rule": "evenodd"}, {"fill": "none", "stroke": "blue"},
                 {"fill": "none", "stroke": "blue", "stroke-linecap": "round", "stroke-width": "3"}, {"style": "fill:red;stroke-width:0"},
-                {"style": "stroke:red;fill:none;stroke-width:2"}, {"style": "stroke:red", "fill": "#0f0"}]
+                {"style": "stroke:red;fill:none;stroke-width:2"}, {"style": "stroke:red", "fill": "#0f0"},
+                {"fill": "none", "style": "fill:black"}, {"fill": "red", "fill-opacity": "0", "style": "fill-opacity:1"},
+                {"fill": "none", "stroke": "blue", "stroke-width": "0", "style": "stroke-width:1"}]
 
 
 _NS = 'xmlns="http://www.w3.org/2000/svg" viewBox="0 0 40 40"'
@@ -55,6 +57,12 @@ RAW_DOCS = [
     '<svg %s><defs><clipPath id="c"><path fill="none" d="M5,5 L30,30 L30,5 Z"/></clipPath></defs><rect x="2" y="2" width="36" height="36" fill="blue" clip-path="url(#c)"/></svg>' % _NS,
     '<svg %s><defs><clipPath id="c"><rect x="5" y="5" width="20" height="20" opacity="0"/></clipPath></defs><g clip-path="url(#c)"><rect x="2" y="2" width="36" height="36" fill="blue"/><rect x="10" y="10" width="5" height="5" fill="none"/></g></svg>' % _NS,
     '<svg %s><g fill="none" stroke="none"><path stroke="red" stroke-width="2" d="M5,20 L35,20"/><path d="M5,30 L35,30"/></g></svg>' % _NS,
+    # a template in defs is painted by the use elements that instance it, with their paint
+    '<svg xmlns:xlink="http://www.w3.org/1999/xlink" %s><defs><path id="a" fill="none" d="M5,5 L35,30"/></defs><use xlink:href="#a" stroke="black" stroke-width="3"/></svg>' % _NS,
+    # a style declaration that restates the initial value overrides a hiding attribute (own or inherited)
+    '<svg %s><g fill="none"><rect x="5" y="5" width="20" height="20" style="fill:black"/></g></svg>' % _NS,
+    '<svg %s><rect x="5" y="5" width="20" height="20" fill="red" opacity="0" style="opacity:1"/></svg>' % _NS,
+    '<svg %s><g display="none"><path d="M5,5 L30,30 L30,5 Z" fill="blue" style="display:inline"/></g><path d="M2,35 L38,35" stroke="red" stroke-width="0" fill="none" style="stroke-width:1"/></svg>' % _NS,
 ]
 
 
@@ -252,8 +260,16 @@ def same_rendering(ctx, a, b, rng, eps=0.05):
     A.eps = B.eps = eps
     for x, y in sample_points(rng, 40):
         try:
-            la, lb = A.point(x, y), B.point(x, y)
+            la = A.point(x, y)
         except (render.Unsupported, ValueError, ZeroDivisionError):
+            return None
+        try:
+            lb = B.point(x, y)
+        except render.Unsupported as e:
+            if "dangling" in str(e):
+                return "the result cannot be rendered any more: %s (the source can)" % e
+            return None
+        except (ValueError, ZeroDivisionError):
             return None
         if la is render.UNKNOWN or lb is render.UNKNOWN:
             continue
